@@ -96,7 +96,17 @@ EXPRS = {
                                  [G.P("child.child.value")], ["child"]),
     "child:kids:items": ("child:kids:items", [G.P("child:kids:items")],
                          ["child", "kids"]),
+    # links that are cached properties (the value is not in the instance
+    # dictionary under the link's name)
+    "plink:value@prop": ("plink:value", [G.P("plink:value")], ["child"]),
+    "plink:kids.items.value@prop": ("plink:kids.items.value",
+                                    [G.P("plink:kids.items.value")],
+                                    ["child", "kids"]),
 }
+#: a property's value is (documented) not evaluated when an observer is
+#: added, only the values its change events carry are followed: these rows
+#: register before the history and keep the property link at the root
+EARLY_ONLY = {"plink:value@prop", "plink:kids.items.value@prop"}
 
 
 class Log:
@@ -129,8 +139,8 @@ class World:
     def __init__(self, ename):
         self.ename = ename
         if "@" in ename:
-            self.pool = G.make_pool(eq={"eq": True, "raises": "raises"}[
-                ename.split("@")[1]])
+            self.pool = G.make_pool(eq={"eq": True, "raises": "raises",
+                                        "prop": "prop"}[ename.split("@")[1]])
         else:
             self.pool = G.make_pool(fresh_class=fresh_needed(ename))
         self.log = Log()
@@ -524,7 +534,7 @@ def run_shard(ctx, shard, tier):
                 n_exec += 1
                 if n_exec % 2000 == 0:
                     gc.collect()
-                if d <= late_depth:
+                if d <= late_depth and ename not in EARLY_ONLY:
                     ctx.case({"expr": ename, "history": h2, "late": True})
                     run_history(ctx, ename, h2, late=True)
                     ctx.ev()
